@@ -38,7 +38,7 @@ def run(ctx: Ctx):
     ends = 0
     for prof in PROFILES:
         pl, st = work.generated_pool(rng, n_per, profile=dict(prof, **c01.RI_PROFILE),
-                                     args_fn=lambda rng, ast: [rng.choice(["-O0", "-O1", "-O2", "-O3"]), "-findirect-start-ptr"])
+                                     args_fn=lambda rng, ast: [rng.choice(["-O0", "-O1", "-O2", "-O3"]), "-findirect-start-ptr"] + rng.choice([[], [], ["-fstrict-done-token-generation"]]))
         ctx.count("programs_generated", st["generated"])
         for ast, src, args, r in pl:
             pats = gen.patterns_of(ast.body)
